@@ -42,7 +42,7 @@ _layout = st.fixed_dictionaries(dict(
     ws3=st.sampled_from([" ", "", "\t", "   "]), cmt=st.one_of(st.sampled_from(_COMMENTS), st.text(alphabet=" !#$%&'()*+,-./0123456789:;<=>?@ABCXYZ[]^_abcxyz{|}~", max_size=20)),
     case=st.integers(0, 2), trail=st.sampled_from(["", "", " ", "   ", "\t"])))
 _T = st.one_of(
-    st.fixed_dictionaries(dict(kind=st.just("shift"), d=st.one_of(st.sampled_from([1, -1, 2, 16, 255, 256, -256, 0x100, 0x1000, -0x1000, 0x3FFF]),
+    st.fixed_dictionaries(dict(kind=st.just("shift"), d=st.one_of(st.sampled_from([1, -1, 2, 16, 255, 256, -256, 0x100, 0x1000, -0x1000, 0x3FFF, "top", "top"]),
                                                                 st.integers(-0x4000, 0x4000)))),
     st.fixed_dictionaries(dict(kind=st.just("rename"), names=st.lists(_fresh_name, min_size=40, max_size=40, unique_by=lambda s: s.upper()))),
     st.fixed_dictionaries(dict(kind=st.just("layout"), layouts=st.lists(_layout, min_size=1, max_size=12))),
@@ -122,6 +122,22 @@ def transform(case):
         size = sum(proggen.size_bounds(s)[1] for s in prog["stmts"])
         o = prog["org"]
         d = T["d"]
+        if d == "top":
+            # move the program so that its last byte lands exactly on $FFFF (its real length comes from assembling it)
+            base = driver.assemble(lines)
+            if base.kind != "OK" or not base.image or o < 0x100:
+                return None
+            # label+c targets (PCR operands, FDB lists) must not pass $FFFF after the move
+            if any(isinstance(s.get("val"), dict) and s["val"].get("op") == "+" and s["val"].get("c", 0) > 0 for s in prog["stmts"]) or \
+                    any(v.get("op") == "+" for s in prog["stmts"] for v in s.get("vals", [])):
+                return None
+            d = 0x10000 - len(base.image) - o
+            if d == 0:
+                return None
+            p2 = copy.deepcopy(prog)
+            p2["org"] = o + d
+            p2["stmts"][0]["addr"] = o + d
+            return lines, proggen.render(p2), dict(d=d, prog2=p2)
         new = o + d
         lo_side = o + size + 16 < 0x100
         if not (0 <= new and new + size + 16 <= 65536) or d == 0:
